@@ -29,6 +29,17 @@ copies deleted afterwards.  Caught = VIOLATION with a shrunk replay (3-6 command
   - nbest_ascending: `los = result[-1]` dropped after `pop()`: NOT a semantic change (a stale, larger
     `los` only makes the loop insort-and-pop elements it could have skipped) - check stays green, as
     the property demands; likewise changing which algorithm the heuristics choose changes nothing.
+
+Sorts IN FLIGHT together (builder wt_strong7): the result of FieldIndex.sort is a lazy generator, so whatever an
+algorithm keeps outside its own frame is shared by every sort of that index that has been created and not yet
+read to the end.  `lsort h <sort arguments>` only creates the result, `pull h k|all` reads k more ids of it; half
+of the cases carry 1-3 groups of 2-3 such sorts (same request again 36%, all algorithms forced and auto-selected)
+read alternately / one id first and the rest after another sort was created and read / in reverse creation
+order; the answer assembled from all pulls is compared with the model's answer for that request alone (a sort
+is a value there), and the docids of a caught Unsortable are read again at the end of the session.
+  seeded C18_G  scan_forward keeps ONE volatile working set on the index instead of a copy per call
+                                              MISSED (by C18; C07 never had two sorts open) - now caught by C07
+  M07m  _timsort keeps its list of missing docids on the index (cleared per call)                    caught
 """
 from lib.core import exc_name, idset
 
@@ -51,6 +62,11 @@ RULE = ("each case: an index built by a 5-80 op history over docids 0..15 + extr
         "aimed at every breakpoint of fwscan_wins / nbest_ascending_wins / the reverse rule (ratios "
         "256..65536/65536, 768 documents, limit 300, 9%) +-1, limit in {None,1,n-1,n,n+1,huge} plus invalid "
         "0/-1, all seven sort_type values x reverse x raise_unsortable (defaults sometimes left implicit). "
+        "50% of the cases: 1-3 groups of 2-3 sorts IN FLIGHT together (lsort = create only, pull = read k more ids; "
+        "read alternately, one id first and the rest after another sort, reverse creation order; the same request "
+        "again in 36% of the groups; quick seed 0: 356 groups in 320 cases, 270 sorts started while another one was "
+        "partly read, of these two forward scans 62, two n-best 23, two timsorts 45; in-flight sorts by algorithm: "
+        "fwscan 114 auto + 116 forced, n-best 88 + 55, timsort 43 + 149). "
         "non-trivial = some sort returned >= 3 ids containing a tie and some sort raised Unsortable")
 LEVEL_TEXT = ("Lean 4 proofs for every index history, every list of distinct docids, every limit, both "
               "directions, both raise_unsortable settings and EVERY algorithm that can run with the flags "
@@ -104,6 +120,8 @@ def model_cmd(c):
     """the model is told the request in iteration order; the implementation gets the collection"""
     if c[0] == "sort":
         return list(c[:6]) + iteration_order(c[5], c[6:])
+    if c[0] == "lsort":
+        return list(c[:7]) + iteration_order(c[6], c[7:])
     return c
 
 
@@ -179,6 +197,60 @@ def gen_sorts(rng, current, universe, count, big, huge=False):
     return cmds
 
 
+def gen_inflight(rng, current, universe, big, huge=False):
+    """2-3 sorts of the same index IN FLIGHT at the same time: each result is only kept (`lsort h ...`) and consumed
+    in pieces (`pull h k`) between the creation and the consumption of the others - alternately, one id first and
+    the rest after another sort was created and read completely, in reverse creation order.  Sorts are lazy
+    generators, so whatever an algorithm keeps outside its own frame is shared by all of them.  Requests: the
+    same one two or three times (same or other flags), overlapping ones, or unrelated ones; every algorithm,
+    forced and auto-selected (the usual request generator), with a bias to complete requests without limit on
+    small indexes (>= 1/4 of the index: forward scan is chosen by itself)."""
+    n = rng.choice([2, 2, 2, 3])
+    sorts = gen_sorts(rng, current, universe, n, big, huge)
+    style = rng.random()
+    if style < 0.35:
+        # the same request again, flags same or different
+        for i in range(1, n):
+            if rng.random() < 0.5:
+                sorts[i] = list(sorts[0])
+            else:
+                sorts[i] = sorts[i][:6] + sorts[0][6:]
+    elif style < 0.55:
+        # all forward scans (forced, or left to the heuristics where it chooses them)
+        for i in range(n):
+            sorts[i][1] = 0
+            sorts[i][3] = rng.choice(["fwscan", "fwscan", "none", "optimal"])
+            if rng.random() < 0.6:
+                sorts[i][2] = "none"
+    cmds = []
+    opened = []
+    total = {}
+    for h, c in enumerate(sorts):
+        cmds.append(["lsort", h] + c[1:])
+        opened.append(h)
+        total[h] = max(1, len(c) - 6)
+        # between two creations: read a bit of what is already open (1 id = first(); a chunk; everything)
+        for _ in range(rng.choice([0, 1, 1, 2])):
+            g = rng.choice(opened)
+            cmds.append(["pull", g, rng.choice([1, 1, 1, 2, max(1, total[g] // rng.choice([2, 3, 7])), "all"])])
+    # then alternately in chunks, finally the rest of each in creation or reverse creation order
+    for _ in range(rng.choice([0, 2, 4, 8])):
+        g = rng.choice(opened)
+        cmds.append(["pull", g, rng.choice([1, 1, 2, 3, max(1, total[g] // rng.choice([2, 3, 5, 11]))])])
+    order = list(opened)
+    r = rng.random()
+    if r < 0.4:
+        order.reverse()
+    elif r < 0.6:
+        rng.shuffle(order)
+    for g in order:
+        cmds.append(["pull", g, "all"])
+    return cmds
+
+
+INFLIGHT_P = 0.5      # share of the cases that get groups of in-flight sorts (1-3 groups)
+
+
 def gen_history(rng, ids, nvals, maxlen, current):
     used = sorted(rng.sample(range(len(INT_POOL)), nvals))
     cmds = []
@@ -216,6 +288,9 @@ def gen(rng, tier, idx):
         cmds = gen_history(rng, ids, nv, 80 if rng.random() < 0.8 else 8, current)
         universe = list(ids) + [77, 78, 79]
         cmds += gen_sorts(rng, current, universe, rng.randrange(12, 30), False)
+        if rng.random() < INFLIGHT_P:
+            for _ in range(rng.choice([1, 2, 3])):
+                cmds += gen_inflight(rng, current, universe, False)
         if rng.random() < 0.3:
             # mutate the index between two bursts of sorts
             cmds += gen_history(rng, ids, nv, 12, current)
@@ -243,6 +318,9 @@ def gen(rng, tier, idx):
             current[d] = None
         universe = list(current) + [base - 1, base - 2, base + n + 100, base + n + 101]
         cmds += gen_sorts(rng, current, universe, rng.randrange(20, 40) if n <= 3000 else 30, True, n > 3000)
+        if rng.random() < INFLIGHT_P and n <= 3000:
+            for _ in range(rng.choice([1, 2])):
+                cmds += gen_inflight(rng, current, universe, True)
     return {"session": "fieldsort", "cfg": cfg, "cmds": cmds}
 
 
@@ -260,6 +338,7 @@ class SortImpl(object):
         self.pool = STR_POOL if cfg.get("vtype") == "str" else None
         self.fam = BTrees.family32 if cfg.get("family") == 32 else BTrees.family64
         self.idx = FieldIndex("x", family=self.fam)
+        self.handles = {}
 
     def doc(self, r):
         o = Doc()
@@ -283,6 +362,34 @@ class SortImpl(object):
         raise ValueError(kind)
 
     def sort(self, c):
+        h = self.open(c)
+        if isinstance(h, str):
+            return h
+        self.pull(h, "all")
+        return h["done"]
+
+    def pull(self, h, k):
+        """consume k more ids (all: the rest) of an open sort result; fills h["done"] when it ends"""
+        from hypatia.exc import Unsortable
+        out = h["out"]
+        n = 0
+        while h["done"] is None and (k == "all" or n < k):
+            try:
+                out.append(next(h["it"]))
+                n += 1
+            except StopIteration:
+                if list(h["coll"]) != h["order"]:
+                    h["done"] = "request-mutated"
+                else:
+                    h["done"] = "%s [%s] ok" % (h["head"], " ".join(map(str, out)))
+            except Unsortable as e:
+                h["exc"] = (e, idset(set(e.docids)))
+                h["done"] = "%s [%s] Unsortable %s" % (h["head"], " ".join(map(str, out)), h["exc"][1])
+            except Exception as e:
+                h["done"] = "%s [%s] %s" % (h["head"], " ".join(map(str, out)), exc_name(e))
+
+    def open(self, c):
+        """the call FieldIndex.sort(...): its answer if it is one already (exception), else the open result"""
         from hypatia import interfaces
         from hypatia.exc import Unsortable
         rev, lim, st, raise_u, kind = c[1], c[2], c[3], c[4], c[5]
@@ -317,23 +424,30 @@ class SortImpl(object):
             return "err Unsortable " + idset(set(e.docids))
         except Exception as e:
             return exc_name(e)
-        out = []
         head = "list" if isinstance(res, list) else "gen"
         try:
-            for d in res:
-                out.append(d)
-        except Unsortable as e:
-            return "%s [%s] Unsortable %s" % (head, " ".join(map(str, out)), idset(set(e.docids)))
+            it = iter(res)
         except Exception as e:
-            return "%s [%s] %s" % (head, " ".join(map(str, out)), exc_name(e))
-        if list(coll) != order:
-            return "request-mutated"
-        return "%s [%s] ok" % (head, " ".join(map(str, out)))
+            return "%s [] %s" % (head, exc_name(e))
+        return {"it": it, "out": [], "head": head, "done": None, "coll": coll, "order": order, "exc": None}
 
     def execute(self, c):
         op = c[0]
         if op == "sort":
             return self.sort(c)
+        if op == "lsort":
+            # only created here; consumed by later `pull` commands; impl_run fills in the answer
+            h = self.open(["sort"] + list(c[2:]))
+            self.handles[c[1]] = h
+            return h
+        if op == "pull":
+            h = self.handles.get(c[1])
+            if isinstance(h, dict):
+                self.pull(h, c[2])
+            return "ok"
+        # the index is not modified while a sort result is open: read what is left first
+        for h in reversed([h for h in self.handles.values() if isinstance(h, dict) and h["done"] is None]):
+            self.pull(h, "all")
         try:
             if op == "index":
                 self.idx.index_doc(c[1], self.doc(c[2]))
@@ -351,7 +465,22 @@ class SortImpl(object):
 
 def impl_run(hyp, case):
     im = SortImpl(hyp, cfgdict(case))
-    return [im.execute(c) for c in case["cmds"]]
+    outs = [im.execute(c) for c in case["cmds"]]
+    # results still open at the end are read now, the last one first
+    for h in reversed([o for o in outs if isinstance(o, dict)]):
+        im.pull(h, "all")
+    for i, h in enumerate(outs):
+        if isinstance(h, dict):
+            outs[i] = h["done"]
+            if h["exc"] is not None:
+                # the docids a caught Unsortable carries must still be the ones it was raised with
+                try:
+                    now = idset(set(h["exc"][0].docids))
+                except Exception as e:
+                    now = exc_name(e)
+                if now != h["exc"][1]:
+                    outs[i] += " (docids of the caught exception now %s)" % now
+    return outs
 
 
 # ----------------------------------------------------------------------------
@@ -405,7 +534,7 @@ def same(a, b):
 def nontrivial(case, outs):
     tie = raised = False
     for c, o in zip(case["cmds"], outs):
-        if c[0] != "sort" or o is None:
+        if c[0] not in ("sort", "lsort") or o is None:
             continue
         if "Unsortable" in o:
             raised = True
@@ -439,7 +568,41 @@ def features(case, outs):
     f = ["family:%s" % cfgdict(case).get("family")]
     cur = {}
     nsorts = 0
+    state = {}           # handle -> [algorithm, started, finished] of the current group of in-flight sorts
     for c, o in zip(case["cmds"], outs):
+        if c[0] == "lsort":
+            if not state or all(v[2] for v in state.values()):
+                state = {}
+                f.append("inflight:group")
+            alg = "?"
+            rev, lim, st = c[2:5]
+            req = c[7:]
+            numdocs = sum(1 for v in cur.values() if v != "none")
+            if hf is not None and req and numdocs and st in STYPES and (lim == "none" or lim >= 1) and \
+                    not (st == "fwscan" and rev) and not (st == "nbest" and lim == "none"):
+                alg = chosen_algorithm(hf, rev, lim, st, len(req), numdocs)
+                f.append("inflight:%s:%s" % ("auto" if st in ("none", "optimal") else "forced", alg))
+            if any(sorted(req) == w[3] for w in state.values()):
+                f.append("inflight:same-request-again")
+            state[c[1]] = [alg, False, False, sorted(req)]
+            c = ["sort"] + list(c[2:])
+        elif c[0] == "pull":
+            v = state.get(c[1])
+            if v is not None and not v[2]:
+                others = [w for k, w in state.items() if k != c[1] and w[1] and not w[2]]
+                if not v[1]:
+                    v[1] = True
+                    if others:
+                        f.append("inflight:started-while-another-is-partly-read")
+                        if v[0] == "fwscan" and any(w[0] == "fwscan" for w in others):
+                            f.append("inflight:fwscan-started-while-another-fwscan-is-partly-read")
+                        if any(w[0] == v[0] for w in others):
+                            f.append("inflight:same-algorithm-twice-in-flight:" + v[0])
+                elif others:
+                    f.append("inflight:continued-while-another-is-partly-read")
+                if c[2] == "all":
+                    v[2] = True
+            continue
         if c[0] == "index":
             cur[c[1]] = c[2]
         elif c[0] == "unindex":
@@ -486,6 +649,8 @@ def shrink_more(case, fails):
     best = dict(case, cmds=cmds)
     # keep only the last failing sort
     sorts = [i for i, c in enumerate(cmds) if c[0] == "sort"]
+    if any(c[0] == "lsort" for c in cmds):
+        sorts = []          # in-flight sorts: only their requests are shrunk (below), none is singled out
     for i in reversed(sorts):
         cand = [c for j, c in enumerate(cmds) if c[0] != "sort" or j == i]
         if fails(dict(case, cmds=cand)):
@@ -507,6 +672,20 @@ def shrink_more(case, fails):
             if fails(dict(case, cmds=cand)):
                 cmds = cand
                 changed = True
+                break
+        if changed:
+            continue
+        for i2 in [j for j, c in enumerate(cmds) if c[0] == "lsort"]:
+            req = cmds[i2][7:]
+            for k in range(len(req)):
+                tries += 1
+                cand = [list(c) for c in cmds]
+                cand[i2] = cmds[i2][:7] + req[:k] + req[k + 1:]
+                if fails(dict(case, cmds=cand)):
+                    cmds = cand
+                    changed = True
+                    break
+            if changed or tries > 300:
                 break
         if changed:
             continue
